@@ -187,7 +187,8 @@ pub fn property() -> Property {
                single_moves: valid positions x every semilegal move and the null move through make_move_unchecked/unmake_move_unchecked, \
                Move::make_raw, TryUnchecked::make_raw, Unchecked::make_raw: snapshot before == snapshot after undo (or after refusal). \
                nested: byte-path-driven properly nested make/unmake DFS (depth up to ~120, with illegal-move rollbacks and null moves), \
-               the same path through MoveChain push/pop, and a Walker pass forwards and backwards. Non-trivial = position with a special \
+               the same path through MoveChain push/pop, and a Walker pass forwards and backwards. long_chain: nesting depth beyond 2^16 \
+               (chains of 65,541-70,003 plies walked from both ends and popped completely). Non-trivial = position with a special \
                move, capture or illegal-semilegal rollback (single), nesting depth >= 2 (nested); distinct by position (+ path).",
         assumptions: &["the hook verif::board_all only reads the private combined set"],
         subchecks: vec![
@@ -211,6 +212,19 @@ pub fn property() -> Property {
                 regressions: &[],
                 exhaustive: false,
             },
+            SubCheck {
+                name: "long_chain",
+                driver: Driver::Custom { run: long_chain_run },
+                check: crate::chainlib::long_chain_check,
+                configs: Configs::ReleaseOnly,
+                required: &["long_chain"],
+                regressions: &[],
+                exhaustive: false,
+            },
         ],
     }
+}
+
+fn long_chain_run(ctx: &RunCtx, stats: &mut Stats, rep: &mut Reporter) {
+    crate::chainlib::long_chain_driver("C04")(ctx, stats, rep)
 }
